@@ -35,7 +35,7 @@ def correspondence(run):
         order of the same family gives another outcome; otherwise it is reported as a model mismatch"""
         seen = rc.order_outcomes(run.rng, family, call)
         if len(seen) > 1:
-            return ("violation", "outcome depends on the enumeration order of a layer: " + rc.describe(obs, log, sp),
+            return ("violation", "outcome depends on the enumeration or registration order of a layer: " + rc.describe(obs, log, sp),
                     {"outcomes_by_order": list(seen.values()), "required": "one outcome for every enumeration order"})
         return ("mismatch", "Model/Resolution.v and runner.py disagree on a call, identically for every enumeration order "
                             "(not an order dependence; see C05): " + rc.describe(obs, log, sp), {})
@@ -47,7 +47,7 @@ def check_orders(run, fam, call):
     run.count("orders:%s" % ("one" if len(seen) == 1 else "several"))
     if len(seen) > 1:
         outs = list(seen.values())
-        run.fail("violation", "outcome depends on the enumeration order of a layer (%s vs %s)" % (
+        run.fail("violation", "outcome depends on the enumeration or registration order of a layer (%s vs %s)" % (
             outs[0]["outcome"][1] if outs[0]["outcome"][0] == "err" else "an overload runs",
             outs[1]["outcome"][1] if outs[1]["outcome"][0] == "err" else "an overload runs"),
             {"family": fam, "call": call, "outcomes_by_order": outs,
